@@ -65,7 +65,8 @@ Qed.
 
 Section A.
 Variable bl : list hold -> lock -> Prop.
-Notation wp := (wp bl).
+Variable pz : Prop.
+Notation wp := (wp bl pz).
 Implicit Types (Qr : val -> post) (Qt QF : post) (H : list hold) (K : bool).
 
 (* every lock of ls, acquired in this order on top of H, is above everything held when it is requested *)
